@@ -87,10 +87,12 @@ impl HelloCase {
                 c.push_str(&format!("<{cp}capability{cns}>{b}</{cp}capability>"));
             }
             for e in &self.extra {
-                c.push_str(&format!(
-                    "<{cp}capability{cns}>{}</{cp}capability>",
-                    e.replace('&', "&amp;").replace('<', "&lt;")
-                ));
+                // `RAW:` = written as it is (ill-formed references inside a capability text)
+                let text = match e.strip_prefix("RAW:") {
+                    Some(r) => r.to_string(),
+                    None => e.replace('&', "&amp;").replace('<', "&lt;"),
+                };
+                c.push_str(&format!("<{cp}capability{cns}>{text}</{cp}capability>"));
             }
             c.push_str(&format!("</{wp}capabilities>"));
             c
@@ -153,10 +155,11 @@ impl HelloCase {
             && !self.junk
             // an element of a foreign namespace is not the NETCONF element of that name
             && self.foreign == 0;
+        // a capability text with a reference that cannot be resolved is not a well-formed hello
         let uris_ok = self
             .extra
             .iter()
-            .all(|e| iri_string::types::UriStr::new(e).is_ok());
+            .all(|e| !e.starts_with("RAW:") && iri_string::types::UriStr::new(e).is_ok());
         format!(
             "shape={} uris={} sid={} bases={}",
             if shape_ok { 1 } else { 0 },
@@ -208,6 +211,10 @@ pub fn gen(opts: &Opts, rng: &mut Rng) -> Vec<HelloCase> {
         vec!["not a uri".into()],
         vec!["urn:ietf:params:netconf:capability:url:1.0".into(), "urn:ietf:params:netconf:base:1.0#frag".into(), "http://xml.juniper.net/netconf/junos/1.0?x".into()],
         vec!["urn:ietf:params:netconf:capability:candidate:1.0".into(), "urn:ietf:params:netconf:capability:candidate:1.0".into()],
+        // references that cannot be resolved inside the query of the :url capability
+        vec!["RAW:urn:ietf:params:netconf:capability:url:1.0?scheme=http,ftp&scheme=file".into()],
+        vec!["RAW:urn:ietf:params:netconf:capability:url:1.0?scheme=http&bogus;ftp".into()],
+        vec!["RAW:urn:ietf:params:netconf:capability:url:1.0?scheme=http&amp".into()],
         // a known URI followed by an empty fragment / an empty query is not that URI
         vec![
             "urn:ietf:params:netconf:base:1.0#".into(),
